@@ -126,6 +126,29 @@ impl CANSocket {
         Ok(Self(AsyncFd::new(socket)?))
     }
 
+    /// Verification seam: attach to an emulated CAN bus made of Unix datagram sockets.
+    ///
+    /// Active only when `GLONAX_VERIF_BUS` names a directory. The endpoint binds to
+    /// `<dir>/<interface>.<pid>.<n>.ep` and connects to the hub `<dir>/<interface>.hub`,
+    /// which exchanges raw 16-byte `can_frame` structs. Everything above the socket
+    /// (`send`, `recv`, marshalling) is unchanged.
+    #[cfg(feature = "verif")]
+    pub fn bind_verif(interface: &str) -> Option<io::Result<Self>> {
+        static COUNTER: std::sync::atomic::AtomicUsize = std::sync::atomic::AtomicUsize::new(0);
+        let dir = std::env::var("GLONAX_VERIF_BUS").ok()?;
+        let n = COUNTER.fetch_add(1, std::sync::atomic::Ordering::SeqCst);
+        let bind = || -> io::Result<Self> {
+            let socket = socket2::Socket::new(socket2::Domain::UNIX, socket2::Type::DGRAM, None)?;
+            let path = format!("{}/{}.{}.{}.ep", dir, interface, std::process::id(), n);
+            let _ = std::fs::remove_file(&path);
+            socket.bind(&SockAddr::unix(&path)?)?;
+            socket.connect(&SockAddr::unix(format!("{}/{}.hub", dir, interface))?)?;
+            socket.set_nonblocking(true)?;
+            Ok(Self(AsyncFd::new(socket)?))
+        };
+        Some(bind())
+    }
+
     /// Bind to a J1939 address and network interface.
     pub fn bind_j1939(address: &SockAddrJ1939) -> io::Result<Self> {
         let socket = socket2::Socket::new_raw(
